@@ -70,12 +70,12 @@ REQUIRED = ["op:build", "op:module-layout", "op:boundary", "op:reload", "op:relo
 def _c14_trailing_kr(clause, facts):
     """ combine_modules merges a split trans-AT module that ends in a terminating domain and then
         appends the next gene's single-KR module without a guard -> IncompatibleComponentError escapes.
-        Must not hide: any other exception type, a crash while merging head and tail themselves, a
-        crash when the merged module has no terminating domain or is not trans-AT, or when the module
-        after the tail is anything but a lone PKS_KR. """
+        Must not hide: any other exception type, a crash while head and tail themselves are being joined
+        (the gene lists are then still untouched), a crash when the merged module has no terminating
+        domain or is not trans-AT, or when the module after the tail is anything but a lone PKS_KR. """
     return (clause == "combine-crash" and facts.get("exception") == "IncompatibleComponentError"
             and facts.get("merged_trans_at") is True and facts.get("merged_has_end") is True
-            and facts.get("next_single_kr") is True)
+            and facts.get("next_single_kr") is True and facts.get("lists_left_half_updated") is True)
 
 
 # --------------------------------------------------------------------------
